@@ -28,6 +28,11 @@ ASSUMPTIONS = [
 
 NAMES = ["a.pdf", "a_0001.pdf", "d/a", "x.tar.gz"]
 EXTRA_NAMES = ["", ".", "a.", ".a", "a/b.c/d", "a..b", "/", "a/", "a_0001_0001.pdf", "ü/ö.é", "a.pdf/", "..", "a_0002.pdf"]
+# (round 8) OTHER names that some normalisation would fold onto a stored one (percent-encoding, letter case, a blank at the
+# end, Unicode composition): for the container they are different names - unknown until they are added themselves
+ALIASES = [("a.pdf", "a%2Epdf"), ("a.pdf", "A.PDF"), ("a.pdf", "a.pdf "), ("d/a", "d%2Fa"), ("a b.pdf", "a%20b.pdf"),
+           ("ü/ö.é", "u\u0308/o\u0308.e\u0301"), ("ü/ö.é", "%C3%BC/%C3%B6.%C3%A9")]
+EXTRA_NAMES += [x for pair in ALIASES for x in pair if x not in NAMES and x not in EXTRA_NAMES]
 DATA = ["X", "Y"]
 CTS = ["t/1", "t/1;a=b"]      # content types are compared as whole strings: parameters, case and blanks all count
 MORE_CTS = CTS + ["t/2", "t/1; a=b", "T/1", "t/1 ", "", "t/1;a=c"]
@@ -132,6 +137,12 @@ def gen_sequences(ctx: C.Ctx):
             else:
                 s.append(["delete", rng.choice(NAMES)])
         seqs.append(s)
+    # directed: a stored name, then its alias spelling deleted / added / deleted again, with a second name sharing the content
+    for n, al in ALIASES:
+        for d in DATA[:2]:
+            seqs.append([["add", n, d, CTS[0]], ["delete", al], ["delete", n]])
+            seqs.append([["add", n, d, CTS[0]], ["add", "x.tar.gz", d, CTS[0]], ["delete", al], ["delete", "x.tar.gz"], ["delete", n]])
+            seqs.append([["add", n, d, CTS[0]], ["add", al, DATA[-1], CTS[-1]], ["delete", al], ["delete", al], ["delete", n]])
     return seqs, exhaustive_n, depth
 
 
